@@ -1691,7 +1691,7 @@ func crashScenario(r *hx.Result, cfg hx.Config, rng *rand.Rand, drv *model.Drive
 // ---------------------------------------------------------------- main
 
 func runC09(r *hx.Result, cfg hx.Config) {
-	r.Rule = "real servers (build tag verif) driven through the rewrite gate. quiescent: random datasets with more than maxkeys collections and more than maxids objects in a collection, every object kind, odd field values, deadlines, hooks and channels with META/EX: dump before = after = after restart, and the shrunk file holds exactly one SET per object; non-trivial = more than 8 collections and more than 40 objects. concurrent: 1-3 random writes (SET/FSET/DEL/PDEL/DROP/FLUSHDB/EXPIRE/PERSIST/JSET/JDEL/hook commands, keys and ids straddling the reported cursor) at the gates: live dump = dump after restart; non-trivial = at least one effective write and more than 12 gates. model schedules: schedules over SET/DEL/DROP/FLUSHDB (+RENAME in a separate stream and the Coq witnesses) played on server and extracted model: cursor at every gate, file records, live dataset and dataset after restart compared; non-trivial = at least one concurrent write and more than 2 batches. further AOFSHRINK requests are issued as writer commands while the rewrite is parked (model: Req, a no-op while shrinking) in every model schedule and every concurrent scenario. crash: every crash point of the final swap and a kill in the middle of the scan, two out of three with --appendfilename pointing outside the data directory: restart recovers the acknowledged dump, directory contents as in the model; then the dataset is made smaller (about half of the collections dropped, a few objects added), a complete AOFSHRINK runs on the leftovers (-shrink / -bak), the new file must hold exactly one SET per remaining object and a second restart must give the same dump; the same as model schedules (crash first, mutate, rewrite, file records = model). buffered at the swap: the rewrite is parked before its final section, a pipelined packet of 1-6 writers (RENAME followed by a write to the old name among them) is executed on a connection that is then held before its pre-write step (connection gate, background flusher parked), the final section runs, the connection is released, the server is killed and restarted: number of commands in s.aofbuf before and after the swap, log records, live dataset and dataset after restart = extracted model (bstep with the proved final_ops); oracle: dataset served before the kill = dataset after restart; non-trivial = at least one command was in the buffer when the final section started."
+	r.Rule = "real servers (build tag verif) driven through the rewrite gate. quiescent: random datasets with more than maxkeys collections and more than maxids objects in a collection, every object kind, odd field values, deadlines, hooks and channels with META/EX: dump before = after = after restart, and the shrunk file holds exactly one SET per object; non-trivial = more than 8 collections and more than 40 objects. concurrent: 1-3 random writes (SET/FSET/DEL/PDEL/DROP/FLUSHDB/EXPIRE/PERSIST/JSET/JDEL/hook commands, keys and ids straddling the reported cursor) at the gates: live dump = dump after restart; non-trivial = at least one effective write and more than 12 gates. model schedules: schedules over SET/DEL/DROP/FLUSHDB (+RENAME in a separate stream and the Coq witnesses) played on server and extracted model: cursor at every gate, file records, live dataset and dataset after restart compared; non-trivial = at least one concurrent write and more than 2 batches. further AOFSHRINK requests are issued as writer commands while the rewrite is parked (model: Req, a no-op while shrinking) in every model schedule and every concurrent scenario. crash: every crash point of the final swap and a kill in the middle of the scan, two out of three with --appendfilename pointing outside the data directory: restart recovers the acknowledged dump, directory contents as in the model; then the dataset is made smaller (about half of the collections dropped, a few objects added), a complete AOFSHRINK runs on the leftovers (-shrink / -bak), the new file must hold exactly one SET per remaining object and a second restart must give the same dump; the same as model schedules (crash first, mutate, rewrite, file records = model). buffered at the swap: the rewrite is parked before its final section, a pipelined packet of 1-6 writers (RENAME followed by a write to the old name among them) is executed on a connection that is then held before its pre-write step (connection gate, background flusher parked), the final section runs, the connection is released, the server is killed and restarted: number of commands in s.aofbuf before and after the swap, log records, live dataset and dataset after restart = extracted model (bstep with the proved final_ops); oracle: dataset served before the kill = dataset after restart; non-trivial = at least one command was in the buffer when the final section started. loading the rewritten log: reserved field names in every padding / case variant through SET and FSET (model: exec_n with both checks on the trimmed name), coordinates that are not finite through POINT / BOUNDS / OBJECT (model: payload writer enc and reader dec; RESP point and bounds before = after restart), the crash points with a legacy aof file in the data directory (model: startup with restore before migrate); padded / case-variant names and non-finite coordinates also appear now and then in every generated SET / FSET."
 	r.Assumptions = []string{
 		"a crash is the death of the process (os.Exit at a named point / SIGKILL); the page cache survives, fsync is not modelled",
 		"B-tree Ascend / ScanGreaterOrEqual are modelled as iteration over a sorted list",
